@@ -9,6 +9,8 @@
        how the walk is organised;
      - strict acceptance implies acceptance with incomplete paths allowed, and the
        incomplete-mode language is prefix closed (Modes);
+     - no verdict is prescribed exactly for the paths that go on (or, in strict mode, end) after the
+       first key value of a list with several keys (UnjudgedWhere);
      - the generated language is exactly the recognised one (LangAgrees, on the
        initial state of every shape, paths to LangLen tokens).
    One initial state per shape so that all workers are used.                     *)
@@ -21,6 +23,7 @@ Sch == PathShape(shape)
 MCInit == shape \in Shapes /\ path = << >> /\ st = InitSt(PathShape(shape))
 MCNext == /\ Len(path) < MaxLen
           /\ st.ph = "rej" => Len(path) < st.at + Ext
+          /\ st.ph # "unk"
           /\ \E tok \in PathTokens(Sch) :
                /\ path' = Append(path, tok)
                /\ st' = StepTok(st, tok, Len(path) + 1)
@@ -30,9 +33,13 @@ MCSpec == MCInit /\ [][MCNext]_vars
 Refines == \A inc \in BOOLEAN : EndVerdict(st, Len(path), inc) = Rec(Sch, path, inc)
 PrefixChar == \A inc \in BOOLEAN :
    LET r == Rec(Sch, path, inc) IN
-   ~r.ok => r.at = (IF Accepted(Sch, path, TRUE) THEN Len(path) + 1 ELSE FirstNonViable(Sch, path))
+   (~r.ok /\ r.at # -1) => r.at = (IF Accepted(Sch, path, TRUE) THEN Len(path) + 1 ELSE FirstNonViable(Sch, path))
 Modes == /\ Accepted(Sch, path, FALSE) => Accepted(Sch, path, TRUE)
          /\ Accepted(Sch, path, TRUE) => \A i \in 0..Len(path) : Viable(Sch, path, i)
+\* no verdict is prescribed exactly past the first key value of a list with several keys (for ending on that
+\* value: in strict mode only); whatever is judged when incomplete paths are refused is judged when they are allowed
+UnjudgedWhere == /\ (st.ph = "unk") = ~Judged(Sch, path, TRUE)
+                 /\ (st.ph \in {"keys", "unk"}) = ~Judged(Sch, path, FALSE)
 LangAgrees == path = << >> =>
    LangKids(Sch, LangLen, PathTokens(Sch)) = {p \in TokSeqs(PathTokens(Sch), LangLen) : Accepted(Sch, p, TRUE)}
 =============================================================================
